@@ -60,6 +60,10 @@ def inst_off(v, want_tz):
     """instant + the offset the result is labelled with"""
     if type(v) is not datetime.datetime or v.tzinfo is None:
         return "X%s" % type(v).__name__
+    if want_tz is not None and not (v.tzinfo is want_tz or v.tzinfo == want_tz):
+        # the same offset is not enough: the result is to be expressed in THAT zone (the requested
+        # one, or the zone of the aware datetime that was given as the date)
+        return "Xothertzinfo:%r %s" % (v.tzinfo, I(td_us(v.utcoffset())))
     return "%s %s" % (T(instant_us(v)), I(td_us(v.utcoffset())))
 
 
@@ -115,6 +119,7 @@ def gen_norm(rng, n, tier="quick"):
                 darg = naive.replace(tzinfo=z2.tzinfo)
                 dtok = "A%d:%d" % (wall_us(naive), z2.id)
                 descr["date_zone"] = z2.describe()
+            out_tz = darg.tzinfo if isinstance(darg, datetime.datetime) and darg.tzinfo is not None else z.tzinfo
             descr["date"] = repr(darg)
             if fn in ("dawn", "dusk"):
                 dn = rng.choice(["civil", "nautical", "astronomical", "num"])
@@ -132,7 +137,7 @@ def gen_norm(rng, n, tier="quick"):
                     st, v = call(getattr(sun, fn), o, darg, tzarg)
             yield Case(fn, "pub_event %s %s %s %s %s %s" % (fn, obs_tok(o), dtok, dep_tok, tz_tok,
                                                             I(instant_us(now))),
-                       inst_off(v, None) if st == "ok" else E(v), descr)
+                       inst_off(v, out_tz) if st == "ok" else E(v), descr)
         elif k == 4:
             el = rng.choice([6.0, -4.0, rng.uniform(-10, 60), rng.uniform(91, 175), 90.0, 90.5])
             di = rng.choice([SunDirection.RISING, SunDirection.SETTING])
@@ -194,11 +199,12 @@ def gen_norm(rng, n, tier="quick"):
                 darg = naive.replace(tzinfo=z2.tzinfo)
                 dtok = "A%d:%d" % (wall_us(naive), z2.id)
                 descr["date_zone"] = z2.describe()
+            out_tz2 = darg.tzinfo if isinstance(darg, datetime.datetime) and darg.tzinfo is not None else z.tzinfo
             descr.update({"function": "night" if is_night else "daylight", "date": repr(darg)})
             with FrozenClock(now):
                 st, v = call(sun.night if is_night else sun.daylight, o, darg, tzarg)
             if st == "ok":
-                exp = ("%s %s" % (inst_off(v[0], None), inst_off(v[1], None))
+                exp = ("%s %s" % (inst_off(v[0], out_tz2), inst_off(v[1], out_tz2))
                        if type(v) is tuple and len(v) == 2 else "X%s" % type(v).__name__)
             else:
                 exp = E(v)
